@@ -574,7 +574,8 @@ def pick_password(rng, seed):
 def enumeration_keys(ctx):
     """(label, text bytes, class name, password) of OpenSSH-format files whose body is truncated at EVERY length.
     ECDSA and Ed25519 keys are derived from the seed only (identical in all shards, lengths partitioned with
-    ctx.mine); RSA: the bundled unencrypted OpenSSH file (same partition) and one fresh 1024-bit key per shard."""
+    ctx.mine); RSA: the bundled unencrypted OpenSSH file (same partition) and one fresh 1024-bit key enumerated
+    whole by the last shard."""
     import random
 
     r0 = random.Random(ctx.seed * 7919 + 37)
@@ -588,8 +589,9 @@ def enumeration_keys(ctx):
         out.append(("enum:%s:enc" % kind, ko.serialize_private(priv, "openssh", b"enum-pw", rounds=1), clsname, "enum-pw", True))
     with open(ko.bundled_path("test_rsa_openssh_nopad.key"), "rb") as f:
         out.append(("enum:bundled:test_rsa_openssh_nopad.key", f.read(), "RSAKey", None, True))
-    out.append(("enum:rsa1024:plain(per-shard key)", ko.serialize_private(ko.gen_private("rsa1024"), "openssh"),
-                "RSAKey", None, True))
+    if ctx.shard == ctx.nshards - 1:  # a fresh RSA key cannot be derived from the seed: one shard enumerates it whole
+        out.append(("enum:rsa1024:plain", ko.serialize_private(ko.gen_private("rsa1024"), "openssh"),
+                    "RSAKey", None, False))
     return out
 
 
@@ -606,7 +608,7 @@ def enumerate_body_truncations(ctx, tmpdir):
         ctx.note("enum_body_length_" + label.split(":")[1] + ("_enc" if label.endswith(":enc") else ""), len(body))
         others = [c for c in CLASSES if c != clsname]
         for n in range(len(body) + 1):
-            if not ctx.mine(n):
+            if partition and not ctx.mine(n):
                 continue
             data = join_pem(head, body[:n], tail, width)
             loader = "file" if (n // ctx.nshards) % 2 == 0 else "fileobj"
@@ -706,7 +708,7 @@ def run(ctx):
         # 1. exhaustive: every body truncation length of one OpenSSH-format key per type; foreign EC points
         enumerate_body_truncations(ctx, tmpdir)
         foreign_point_cases(ctx, tmpdir, seeds)
-        n_cases = ctx.pick(2000, 12000)
+        n_cases = ctx.pick(1700, 12000)
         deadline = ctx.deadline(150, 420)
         sampled = {}
         for i in range(n_cases):
@@ -759,9 +761,10 @@ def run(ctx):
     ctx.require("mutation_text", 1500)
     ctx.require("bcrypt_kdf_calls", 100)
     # the enumeration is complete only if every shard ran: floors are the exact minimum body sizes
-    ctx.require("enum_body_truncations", 5000)
-    ctx.require("enum_truncations_inside_private_section", 2000)
-    ctx.require("enum_truncations_ECDSAKey", 1500)
+    ctx.require("enum_body_truncations", 6000)
+    ctx.require("enum_truncations_inside_private_section", 3500)
+    ctx.require("enum_truncations_ECDSAKey", 2000)
     ctx.require("enum_truncations_Ed25519Key", 400)
-    ctx.require("enum_truncations_RSAKey", 2000)
+    ctx.require("enum_truncations_RSAKey", 1500)
+    ctx.require("enum_keys", 9 * ctx.nshards + 1)
     ctx.require("ec_foreign_point_cases", 50)
